@@ -337,6 +337,8 @@ func (fr *Frame) evalClause2(cl *Clause, st *State, oldSt *State, results []Val,
 				fail("clause %s mentions result outside a postcondition", cl.Label)
 			}
 			return results[cp.Idx]
+		case "name":
+			return fr.bindIfaceName(cl, cp, results)
 		}
 		pos := token.Pos(cp.Pos)
 		// named result?
@@ -392,6 +394,52 @@ func (fr *Frame) evalClause2(cl *Clause, st *State, oldSt *State, results []Val,
 		return Val{}
 	}
 	return fr.evalClauseWith(cl, lookup, st, oldSt)
+}
+
+// bindIfaceName: a clause of an interface contract evaluated for an
+// implementing method: `self` is the receiver, parameters and results are
+// bound by position against the interface method's signature.
+func (fr *Frame) bindIfaceName(cl *Clause, cp ClauseParam, results []Val) Val {
+	vc := fr.vc
+	if vc.ct == nil || vc.ct.Implements == "" {
+		fail("clause %s: name %s can only be bound for an interface contract", cl.Label, cp.Name)
+	}
+	key := vc.ct.Implements[6:]
+	i := strings.LastIndex(key, ".")
+	var it *types.Interface
+	if o := vc.L.Pkg.Scope().Lookup(key[:i]); o != nil {
+		it, _ = o.Type().Underlying().(*types.Interface)
+	}
+	if it == nil {
+		fail("interface %s not found", key[:i])
+	}
+	var sig *types.Signature
+	for k := 0; k < it.NumMethods(); k++ {
+		if it.Method(k).Name() == key[i+1:] {
+			sig = it.Method(k).Type().(*types.Signature)
+		}
+	}
+	if sig == nil {
+		fail("interface method %s not found", key)
+	}
+	params := fr.fn.Params
+	if cp.Name == "self" {
+		return fr.val(params[0])
+	}
+	for k := 0; k < sig.Params().Len(); k++ {
+		if sig.Params().At(k).Name() == cp.Name || cp.Name == fmt.Sprintf("arg%d", k) {
+			return fr.val(params[k+1])
+		}
+	}
+	if results != nil {
+		for k := 0; k < sig.Results().Len(); k++ {
+			if sig.Results().At(k).Name() == cp.Name {
+				return results[k]
+			}
+		}
+	}
+	fail("interface contract %s: cannot bind %s", key, cp.Name)
+	return Val{}
 }
 
 // ---------------------------------------------------------------------------
